@@ -371,6 +371,105 @@ def isoDateTime (optSec : Bool) : Spec where
 
 def isoDateTimeQ (optSec : Bool) : Spec := { isoDateTime optSec with step := dateTimeStep 400 optSec }
 
+/-! ### option-taking constructors: IsoDateTime(IsoDatetimeOptions{Precision, Offset, Local}), IsoTime(IsoTimeOptions{Precision})
+
+  Precision nil  = seconds optional, any number (≥ 1) of fraction digits optional   (`Prec.any`)
+  Precision -1   = hh:mm only                                                       (`Prec.minute`)
+  Precision 0    = hh:mm:ss, no fraction                                            (`Prec.digits 0`)
+  Precision n>0  = hh:mm:ss '.' exactly n digits                                    (`Prec.digits n`)
+  Offset: a numeric offset ±hh:mm may stand for the zone; Local: the zone may be omitted. -/
+
+inductive Prec where
+  | any | minute | digits (n : Nat)
+
+def Prec.secondsAllowed : Prec → Bool
+  | .minute => false
+  | _ => true
+
+def Prec.fractionAllowed : Prec → Bool
+  | .any => true
+  | .digits (_ + 1) => true
+  | _ => false
+
+/-- how many fraction digits are counted (0 = not counted) -/
+def Prec.exact : Prec → Nat
+  | .digits n => n
+  | _ => 0
+
+structure TOpt where
+  prec : Prec
+  /-- 0 = no zone (time of day only), 1 = zone required, 2 = zone optional (Local) -/
+  zone : Nat
+  offset : Bool
+
+/-- the time of day is complete in state `q` (positions as in `timeStep`; `q.d` counts fraction digits) -/
+def timeDone (o : TOpt) (q : DateSt) : Bool :=
+  match o.prec with
+  | .any => q.pos = 16 || q.pos = 19 || q.pos = 21
+  | .minute => q.pos = 16
+  | .digits 0 => q.pos = 19
+  | .digits (n + 1) => q.pos = 21 && q.d = n + 1
+
+def timeStepO (o : TOpt) (q : DateSt) (c : Nat) : Option DateSt :=
+  let d := c - 48
+  let two (max : Nat) : Option DateSt :=
+    if isDigit c ∧ q.t * 10 + d ≤ max then some { q with pos := q.pos + 1, t := 0 } else none
+  let one : Option DateSt := if isDigit c then some { q with pos := q.pos + 1, t := d } else none
+  let zone : Option DateSt :=   -- after a complete time of day
+    if !timeDone o q ∨ o.zone = 0 then none
+    else if c = 90 then some ⟨27, 0, 0, 0, 0⟩
+    else if (c = 43 ∨ c = 45) ∧ o.offset then some ⟨22, 0, 0, 0, 0⟩
+    else none
+  if q.pos = 11 then one
+  else if q.pos = 12 then two 23
+  else if q.pos = 13 then (if c = 58 then some { q with pos := 14 } else none)
+  else if q.pos = 14 then one
+  else if q.pos = 15 then two 59
+  else if q.pos = 16 then (if c = 58 then (if o.prec.secondsAllowed then some { q with pos := 17 } else none) else zone)
+  else if q.pos = 17 then one
+  else if q.pos = 18 then two 59
+  else if q.pos = 19 then (if c = 46 then (if o.prec.fractionAllowed then some { q with pos := 20 } else none) else zone)
+  else if q.pos = 20 then (if isDigit c then some { q with pos := 21, d := if o.prec.exact = 0 then 0 else 1 } else none)
+  else if q.pos = 21 then
+    (if isDigit c then (if o.prec.exact = 0 then some q else if q.d < o.prec.exact then some { q with d := q.d + 1 } else none)
+     else zone)
+  else if q.pos = 22 then one
+  else if q.pos = 23 then two 23
+  else if q.pos = 24 then (if c = 58 then some { q with pos := 25 } else none)
+  else if q.pos = 25 then one
+  else if q.pos = 26 then (if isDigit c ∧ q.t * 10 + d ≤ 59 then some ⟨27, 0, 0, 0, 0⟩ else none)
+  else none
+
+def timeAccO (o : TOpt) (q : DateSt) : Bool := q.pos = 27 || (timeDone o q && o.zone != 1)
+
+/-- IsoTime(IsoTimeOptions{Precision}) : a time of day, no zone -/
+def isoTimeOpt (p : Prec) : Spec where
+  State := DateSt
+  beq := DateSt.beq
+  beq_eq := DateSt.beq_eq
+  init := ⟨11, 0, 0, 0, 0⟩
+  support := 46 :: 58 :: digits
+  step := timeStepO ⟨p, 0, false⟩
+  acc := timeAccO ⟨p, 0, false⟩
+  code := DateSt.code
+  pp := DateSt.pp
+
+/-- IsoDateTime(IsoDatetimeOptions{Precision, Offset, Local}) -/
+def isoDateTimeOpt (p : Prec) (offset loc : Bool) : Spec :=
+  let o : TOpt := ⟨p, if loc then 2 else 1, offset⟩
+  { State := DateSt
+    beq := DateSt.beq
+    beq_eq := DateSt.beq_eq
+    init := ⟨0, 0, 0, 0, 0⟩
+    support := 43 :: 45 :: 46 :: 58 :: 84 :: 90 :: digits
+    step := fun q c =>
+      if q.pos < 10 then dateStep 10000 q c
+      else if q.pos = 10 then (if c = 84 then some { q with pos := 11 } else none)
+      else timeStepO o q c
+    acc := timeAccO o
+    code := DateSt.code
+    pp := DateSt.pp }
+
 /-! ### excluded regions of the `_partial` theorems (Proofs/C20.lean) -/
 
 /-- strings the exported Base64URL pattern takes although they break the RFC 4648 length rule:
